@@ -32,7 +32,70 @@ def extract(name, ns):
     raise KeyError(name)
 
 
+CSRF_BOOLS = ('cookie_present', 'cookie_empty', 'token_used', 'issued_for_cookie', 'issued_for_service', 'issued_for_origin',
+              'unmodified', 'strict_origin', 'origin_header')
+
+
+def build_csrf_check(i):
+    import base64
+    import datetime
+    import hashlib
+    import hmac
+    import logging
+    import urllib.parse
+    b = {k: bool(i[k]) for k in CSRF_BOOLS}
+    secret, cookie, service, origin = 's3cret', 'cookie-value', 'service', 'http://host'
+    salt = 'abcdefgh'
+    sig = hmac.new(bytes(secret, 'utf-8'), bytes(cookie if b['issued_for_cookie'] else 'other-cookie', 'utf-8'), hashlib.sha1)
+    sig.update(bytes(service if b['issued_for_service'] else 'other-service', 'utf-8'))
+    if b['strict_origin']:
+        sig.update(bytes(origin if b['issued_for_origin'] else 'http://evil', 'utf-8'))
+    sig.update(bytes(salt, 'utf-8'))
+    text = salt + str(base64.b64encode(sig.digest()))
+    if not b['unmodified']:
+        text = text[:-3] + ('A' if text[-3] != 'A' else 'B') + text[-2:]
+    token = urllib.parse.quote(text)
+    store = NS(added=[])
+    tree = ast.parse(open(os.path.join(REPO, 'dashlive/server/requesthandler/csrf.py')).read())
+    cls = next(n for n in tree.body if isinstance(n, ast.ClassDef) and n.name == 'CsrfProtection')
+    fn = next(n for n in cls.body if isinstance(n, ast.FunctionDef) and n.name == 'check')
+    fn.decorator_list, fn.returns = [], None
+    for node in ast.walk(fn):
+        if isinstance(node, ast.arg):
+            node.annotation = None
+        elif isinstance(node, ast.AnnAssign) and node.value is not None:
+            node.annotation = ast.Constant(None)
+
+    class Token:
+        CSRF_SALT_LENGTH = 8
+
+        def __init__(self, **kw):
+            self.__dict__.update(kw)
+
+        @staticmethod
+        def get_one(jti=None, token_type=None):
+            return object() if b['token_used'] else None
+    cookies = {'csrf': ('' if b['cookie_empty'] else cookie)} if b['cookie_present'] else {}
+    headers = {'Origin': origin} if b['origin_header'] else {}
+    fl = NS(request=NS(cookies=cookies, headers=headers, url=origin + '/page'), after_this_request=lambda f: f,
+            current_app=NS(config={'DASH': {'CSRF_SECRET': secret, 'STRICT_CSRF_ORIGIN': 'True' if b['strict_origin'] else 'False'}}))
+    ns = {'flask': fl, 'logging': logging, 'urllib': urllib, 'hmac': hmac, 'hashlib': hashlib, 'base64': base64, 'datetime': datetime,
+          'Token': Token, 'TokenType': NS(CSRF=NS(value='csrf')), 'KEY_LIFETIMES': {}, 'CsrfFailureException': CsrfFailureException,
+          'db': NS(session=NS(add=lambda t: store.added.append(t), commit=lambda: None)),
+          'CsrfProtection': NS(CSRF_COOKIE_NAME='csrf')}
+
+    class Lifetimes(dict):
+        def __getitem__(self, k):
+            return datetime.timedelta(hours=1)
+    ns['KEY_LIFETIMES'] = Lifetimes()
+    exec(compile(ast.fix_missing_locations(ast.Module(body=[fn], type_ignores=[])), 'csrf.py', 'exec'), ns)
+    env = dict(b, __store__=store, recorded=lambda st: len(st.added) == 1)
+    return {'env': env, 'old_env': dict(env), 'call': lambda: ns['check'](NS(CSRF_COOKIE_NAME='csrf'), service, token)}
+
+
 def build(key, variant, i):
+    if key.endswith('CsrfProtection.check'):
+        return build_csrf_check(i)
     qual = key.split(':')[1].split('.')[0]
     b = {k: bool(i[k]) for k in BOOLS}
     b['has_payload'] = b['is_post'] or b['is_put']
